@@ -23,7 +23,7 @@ LS_TAGS = [None, "GSpline.EFF", "kMatrix.pole.1", "FOCUS.Kpi", "kMatrix.prod.0",
 KM_PARAMS = ([[f"f_scatt{i}", "2", f"0.{i+1}", "0"] for i in (3, 0, 4, 1, 2)]
              + [[f"IS_p{i}_{n}", "2", f"{0.1*i + 0.01*j:.3f}", "0"] for i in (2, 1) for j, n in reversed(list(enumerate(("pipi", "KK", "4pi", "EtaEta", "EtapEta", "mass"))))]
              + [["s0_prod", "2", "-1.0", "0"], ["s0_scatt", "2", "-3.92637", "0"], ["sA", "2", "1.0", "0"], ["sA_0", "2", "-0.15", "0"]])
-STRUCT_KEYS = [(0, k) for k in STRUCTS[0]] + [(2, k) for k in STRUCTS[2]] + [(1, k) for k in STRUCTS[1]]
+STRUCT_KEYS = [(0, k) for k in STRUCTS[0]] + [(2, k) for k in STRUCTS[2]] + [(1, k) for k in STRUCTS[1]] + [(3, k) for k in STRUCTS[3]] + [(4, k) for k in STRUCTS[4]]
 FLAGS = [("0", "0"), ("2", "2"), ("0", "2"), ("2", "0")]
 EXTRA_PARAMS = [[], [["D0_radius", "0", "0.0037559", "0.001"]], [["D0_radius", "2", "0.0037559", "0"]],
                 [["Free_par", "0", "-1.5", "0.25"], ["Fixed::par", "2", "3", "0.5"], ["D0_radius", "2", "0.004", "0"]]]
